@@ -18,6 +18,7 @@ pub mod thread {
     thread_local! {
         static LIVE: Cell<usize> = const { Cell::new(0) };
         static SPAWNED: Cell<usize> = const { Cell::new(0) };
+        static SCOPE_PENDING_MAX: Cell<usize> = const { Cell::new(0) };
     }
 
     struct Guard;
@@ -30,6 +31,15 @@ pub mod thread {
     pub fn reset_counters() {
         LIVE.with(|l| l.set(0));
         SPAWNED.with(|l| l.set(0));
+        SCOPE_PENDING_MAX.with(|l| l.set(0));
+    }
+    /// the crossbeam scope stub reports how many scoped threads it holds that nobody has joined
+    /// yet (crossbeam keeps their handles, results and stacks until the scope ends)
+    pub fn note_scope_pending(n: usize) {
+        SCOPE_PENDING_MAX.with(|l| l.set(l.get().max(n)));
+    }
+    pub fn scope_pending_max() -> usize {
+        SCOPE_PENDING_MAX.with(|l| l.get())
     }
     pub fn live() -> usize {
         LIVE.with(|l| l.get())
